@@ -2,11 +2,12 @@ import OFV.Driver.Core
 import OFV.Driver.OpsC16
 import OFV.Driver.OpsC15
 import OFV.Driver.OpsC19
+import OFV.Driver.OpsOF
 namespace OFV.Driver
 open OFV
 
 def families : List (String × List (String × Handler)) :=
-  [("C16", C16.handlers), ("C15", C15.handlers), ("C18", C18.handlers), ("C19", C19.handlers)]
+  [("C16", C16.handlers), ("C15", C15.handlers), ("C18", C18.handlers), ("C19", C19.handlers), ("OF", OF.handlers)]
 
 structure Stats where
   lines : Nat := 0
